@@ -695,7 +695,7 @@ def ymd_opt(days):
     return [] if days is None else [list(civil(days))]
 
 
-def build_case(jid, path, fmt, xs, shown, rows, aux=False):
+def build_case(jid, path, fmt, xs, shown, rows, aux=False, all_visited=False):
     """the S-expression handed to the model.  Free-text fields come from the generator, amount
     texts from the register rows (`rows`, one per shown posting)."""
     it = iter(rows)
@@ -725,6 +725,8 @@ def build_case(jid, path, fmt, xs, shown, rows, aux=False):
         y, m, d = x.ymd
         xacts.append([x.line, y, m, d, ymd_opt(x.eff_aux), x.state, opt(x.code), hexs(x.payee), opt(xnote), meta_entries(x, 'all'), ps])
     visited = {p.account for _, posts in shown for p in posts}
+    if all_visited:       # --display filters after calc_posts: every posting (and account) of the journal was visited
+        visited = {p.account for x in xs for p in x.posts}
     for x in xs:
         for p in x.posts:
             accts.append([p.account in visited, hexs(p.account)])
@@ -756,28 +758,35 @@ def make_journal(ctx, rng, idx, jdir):
     xs, qword = gen_journal(rng, idx, mode)
     fname = 'j%d.dat' % idx if rng.random() < 0.7 else rng.choice(['q"%d.dat', 'b\\%d.dat', 'é<&%d.dat']) % idx
     fmt, fkind = gen_format(rng)
-    return make_record(xs, qword, fmt, fkind, 'j%d' % idx, os.path.join(jdir, fname), rng.random() < 0.4)
+    aux = rng.random() < 0.4
+    # report options that filter or regroup AFTER the postings were calculated (same options for
+    # every command of the journal): --display PREDICATE in place of the account query; --group-by payee
+    r = rng.random()
+    opt = 'display' if (qword == 'Zq' and r < 0.3) else 'group' if r > 0.93 else None
+    return make_record(xs, qword, fmt, fkind, 'j%d' % idx, os.path.join(jdir, fname), aux, opt)
 
 
-def make_record(xs, qword, fmt, fkind, jid, path, aux=False):
+def make_record(xs, qword, fmt, fkind, jid, path, aux=False, opt=None):
     jtext = render(xs)
     with open(path, 'wb') as f:
         f.write(u8(jtext))
     query = [qword] if qword else []
+    if opt == 'display':
+        query = ['--display', 'account =~ /%s/' % qword]
     if qword:
         shown = [(x, [p for p in x.posts if qword.lower() in p.account.lower()]) for x in xs]
         shown = [(x, ps) for x, ps in shown if ps]
     else:
         shown = [(x, list(x.posts)) for x in xs]
     return dict(id=jid, journal=jtext, path=path, query=query, qword=qword, fmt=fmt, fkind=fkind, xs=xs,
-                shown=shown, outs=None, aux=aux)
+                shown=shown, outs=None, aux=aux, opt=opt)
 
 
 def shrink(rec, key):
     """drop transactions (then postings' notes) while the oracle still reports `key`; -> the
     violation on the smallest journal found"""
     def judge(xs):
-        r = run_commands(make_record(xs, rec['qword'], rec['fmt'], rec['fkind'], rec['id'], rec['path'], rec['aux']))
+        r = run_commands(make_record(xs, rec['qword'], rec['fmt'], rec['fkind'], rec['id'], rec['path'], rec['aux'], rec['opt']))
         tmp = lib.Result()
         rows = check_journal_fields(r, tmp)
         if rows is None:
@@ -802,21 +811,27 @@ def shrink(rec, key):
     return best
 
 
-def commands(path, fmt_string, query, aux=False):
+def commands(path, fmt_string, query, aux=False, opt=None):
     """every report of one journal runs with the same query and the same --aux-date setting; `reg2`
-    is the register with the OTHER setting (the xml output carries both dates)"""
+    is the register with the OTHER setting (the xml output carries both dates).  Under opt='group'
+    the emacs report runs with --group-by payee (the register and csv print a title line per group
+    then; they run without the option and are compared as multisets of postings)"""
     flag = ['--aux-date'] if aux else []
     other = [] if aux else ['--aux-date']
-    return (('reg', ['-f', path, 'reg', '--format', REG_FORMAT] + flag + query),
+    grp = ['--group-by', 'payee'] if opt == 'group' else []
+    extra = ()
+    if opt == 'display':     # the register of the whole journal: amount texts of the postings --display hides
+        extra = (('regall', ['-f', path, 'reg', '--format', REG_FORMAT] + flag),)
+    return extra + (('reg', ['-f', path, 'reg', '--format', REG_FORMAT] + flag + query),
             ('reg2', ['-f', path, 'reg', '--format', '%(date)' + ROWEND + '\\n'] + other + query),
             ('csvd', ['-f', path, 'csv'] + flag + query),
             ('csv', ['-f', path, 'csv', '--csv-format', fmt_string] + flag + query),
-            ('emacs', ['-f', path, 'emacs'] + flag + query),
+            ('emacs', ['-f', path, 'emacs'] + flag + grp + query),
             ('xml', ['-f', path, 'xml'] + flag + query))
 
 
 def run_commands(rec):
-    rec['outs'] = {name: lib.run_ledger(args) for name, args in commands(rec['path'], csv_format_string(rec['fmt']), rec['query'], rec['aux'])}
+    rec['outs'] = {name: lib.run_ledger(args) for name, args in commands(rec['path'], csv_format_string(rec['fmt']), rec['query'], rec['aux'], rec['opt'])}
     try:
         os.unlink(rec['path'])
     except OSError:
@@ -826,7 +841,7 @@ def run_commands(rec):
 
 def case_of(rec):
     return dict(journal=rec['journal'], file=os.path.basename(rec['path']), query=rec['query'],
-                csv_format=csv_format_string(rec['fmt']), aux_date=rec['aux'])
+                csv_format=csv_format_string(rec['fmt']), aux_date=rec['aux'], option=rec['opt'])
 
 
 def check_journal_fields(rec, res):
@@ -944,7 +959,13 @@ def oracle(rec, rows, res):
                                  commodity=r['commodity(scrub(display_amount))'], quantity=r['quantity(scrub(display_amount))'],
                                  xnote='\n'.join(x.notes), pnote='\n'.join(p.notes)))
         if len(got) != len(want):
-            viol('xml:row-count-differs', 'the xml output has %d postings, the register %d' % (len(got), len(want)), got, want)
+            n_all = sum(len(x.posts) for x, _ in rec['shown'])
+            if rec['opt'] == 'display' and len(got) == n_all:
+                viol('xml:row-count-differs:display-filter-ignored',
+                     'under --display the xml output lists every posting of each transaction that has a displayed posting (%d), the register (csv, emacs) only the displayed ones (%d)' % (len(got), len(want)),
+                     [g['account'] for g in got], [w['account'] for w in want])
+            else:
+                viol('xml:row-count-differs', 'the xml output has %d postings, the register %d' % (len(got), len(want)), got, want)
         else:
             seen = set()
             k = 0
@@ -1038,8 +1059,15 @@ def oracle(rec, rows, res):
     try:
         forms = sexp_read(etext)
     except Unreadable as e:
-        viol('emacs:unreadable', 'emacs output is not a readable S-expression: %s' % e, etext[:600], 'balanced, readable')
+        groups = {r['payee'] for r in rows}
+        if rec['opt'] == 'group' and len(groups) >= 2:
+            viol('emacs:unreadable:group-by-two-groups', 'emacs --group-by payee with %d groups is not a readable S-expression: %s' % (len(groups), e),
+                 etext[:600], 'balanced, readable')
+        else:
+            viol('emacs:unreadable', 'emacs output is not a readable S-expression: %s' % e, etext[:600], 'balanced, readable')
         forms = None
+    if forms is not None and rec['opt'] == 'group' and forms and all(isinstance(f, list) for f in forms):
+        forms = [[xf for f in forms for xf in f]]        # one list per group: the transactions of all groups
     if forms is not None:
         if not rows:
             if forms:
@@ -1088,6 +1116,10 @@ def oracle(rec, rows, res):
             elif len(got) != len(want):
                 viol('emacs:row-count-differs', 'the emacs output has %d postings, the register %d' % (len(got), len(want)), got, want)
             else:
+                if rec['opt'] == 'group':
+                    # the groups come in the order of their payees: compare posting by posting, matched by line number
+                    order = {w['line']: i for i, w in enumerate(want)}
+                    got = sorted(got, key=lambda g: order.get(g['line'], -1))
                 seen = set()
                 for g, w, hp, (own, xd) in zip(got, want, header_payees, date_info):
                     d = [f for f in w if g[f] != w[f]]
@@ -1139,7 +1171,7 @@ def run(ctx, n_override=None):
         if rows is None:
             continue
         live.append(rec)
-        lines.append(build_case(rec['id'], rec['path'], rec['fmt'], rec['xs'], rec['shown'], rows, rec['aux']))
+        lines.append(build_case(rec['id'], rec['path'], rec['fmt'], rec['xs'], rec['shown'], rows, rec['aux'], rec['opt'] == 'display'))
         # reader specifications against python's readers, on ledger's real output
         outs = rec['outs']
         for what, name in (('rfc', 'csvd'), ('bs', 'csvd'), ('rfc', 'csv'), ('lisp', 'emacs'), ('xmltags', 'xml')):
@@ -1152,7 +1184,24 @@ def run(ctx, n_override=None):
                 data = data.split(b'\n', 1)[1] if data.startswith(b'<?xml') else data    # without the declaration
             reader_lines.append(lib.sx(['read', what, rec['id'], data]))
             reader_meta.append((rec, what, name, data))
-    out = lib.run_model('C18', lines + reader_lines)
+    # --display: format_ptree::flush walks xact->posts by POST_EXT_VISITED, which calc_posts sets BEFORE the
+    # display filter - the model's xml_transactions is given the postings the code walks (all of them, for
+    # each transaction with a displayed posting)
+    extra_lines, extra_recs = [], []
+    for rec in live:
+        if rec['opt'] != 'display':
+            continue
+        allrows = parse_register(rec['outs']['regall'][1])
+        walked = [(x, list(x.posts)) for x, _ in rec['shown']]
+        keep = {id(x) for x, _ in rec['shown']}
+        if allrows is None or len(allrows) != sum(len(x.posts) for x in rec['xs']):
+            res.disagreements.append(dict(name='C18/journal-fields', case=case_of(rec), impl='register of the whole journal: %s rows' % (None if allrows is None else len(allrows)), model='one row per posting'))
+            continue
+        it = iter(allrows)
+        sel = [r for x in rec['xs'] for p in x.posts for r in [next(it)] if id(x) in keep]
+        extra_lines.append(build_case(rec['id'] + 'x', rec['path'], rec['fmt'], rec['xs'], walked, sel, rec['aux'], True))
+        extra_recs.append(rec)
+    out = lib.run_model('C18', lines + extra_lines + reader_lines)
     model = {}
     pos = 0
     for rec in live:
@@ -1165,6 +1214,12 @@ def run(ctx, n_override=None):
             else:
                 d['error'] = out[pos - 1]
         model[rec['id']] = d
+    for rec in extra_recs:
+        for _ in range(6):
+            parts = out[pos].split(' ')
+            pos += 1
+            if len(parts) == 3 and parts[0] == rec['id'] + 'x' and parts[1] == 'xmlt':
+                model[rec['id']]['xmlt'] = b'' if parts[2] == '-' else bytes.fromhex(parts[2])
     for rec in live:
         case = case_of(rec)
         outs = rec['outs']
@@ -1174,7 +1229,11 @@ def run(ctx, n_override=None):
                     xmlt=(xt or '').encode('utf-8', 'surrogateescape'), xmla=(xa or '').encode('utf-8', 'surrogateescape'),
                     xmlc=(xc or '').encode('utf-8', 'surrogateescape'))
         res.traces += 1
+        if rec['opt']:
+            res.count('option:' + {'display': '--display PREDICATE', 'group': '--group-by payee (emacs: oracle only)'}[rec['opt']])
         for k in ('csvd', 'csv', 'emacs', 'xmlt', 'xmla', 'xmlc'):
+            if k == 'emacs' and rec['opt'] == 'group':
+                continue      # the emacs writer across groups is not modelled (finding F1802); the oracle judges it
             if m.get(k) != impl[k]:
                 res.disagreements.append(dict(name='C18/' + k, case=case, impl=text_of(impl[k])[:1500],
                                               model=text_of(m[k])[:1500] if k in m else m.get('error')))
@@ -1312,7 +1371,7 @@ def replay(ctx, obj):
         f.write(case['journal'].encode('utf-8', 'surrogateescape'))
     q = case.get('query') or []
     cmd = case.get('command', 'csvd')
-    args = dict(commands(path, case.get('csv_format', ''), q, case.get('aux_date', False)))[cmd]
+    args = dict(commands(path, case.get('csv_format', ''), q, case.get('aux_date', False), case.get('option')))[cmd]
     st, out, err = lib.run_ledger(args)
     st2, reg, _ = lib.run_ledger(['-f', path, 'reg', '--format', '%(date)|%(code)|%(payee)|%(display_account)|%(join(note | xact.note))\\n'] + q)
     print('replay: ledger %s' % ' '.join(args[2:]))
